@@ -1,21 +1,82 @@
 (* C07 - Executors: an accepted task runs exactly once; stop() drains submitted work.
    Only statements; proofs are `exact <lemma of EX/EXProofs.v>`.  Reach c progs s = "s is reachable from the
-   initial state of configuration c (worker count, capacities, stealing, balance interval, task graph) and client
-   programs progs under SOME schedule" - every theorem is quantified over all of them.  (header completed below) *)
+   initial state of configuration c (worker count, global/local capacity, stealing, balance interval, task graph)
+   and client programs progs (external threads: submit / wakeup_one_worker / stop / wait-for-the-others) under
+   SOME schedule" - every theorem is quantified over all of them.
+
+   STATUS (honest): the two headline statements are stated below at full strength as `..._statement`
+   definitions but are NOT proved in Coq:
+     c07_run_once_statement     - a task starts at most once and only if its submission was accepted
+     c07_stop_drains_statement  - when stop() has returned, every task accepted before stop() was called and
+                                  every task pushed into a local queue has finished
+   What IS proved (for all configurations, programs and schedules) are the parts of their argument that concern
+   the order of events in stop() and where tasks may run:
+     c07_run_once_partial       - a task only ever starts on a worker thread, i.e. inside the RunnerScope that
+                                  keep_execute opens for this executor (not proved: at most once, only accepted)
+     c07_stop_drains_partial    - when stop() has returned every worker has left keep_execute and the balance
+                                  thread has exited; no STOP marker exists in the global queue before stop() is
+                                  called (so everything accepted earlier has a smaller ticket than every marker)
+                                  nor while the balance thread is alive (so what it moves to the global queue is
+                                  ahead of every marker); local queues and the balance thread only ever hold
+                                  FUNCTION tasks (a worker exits only on a marker popped from the global queue)
+   Missing for the full statements: the ticket invariant of the global queue (every pop ticket is consumed or
+   has a worker waiting on it), "a worker past its local try_pop has an empty local queue", the location
+   invariant of accepted tasks and the token-counting invariant for at-most-once.  Both full statements are
+   checked instead by exhaustive exploration of the extracted model on small programs (no deadlock, outcome sets)
+   and by the monitors on the real executor (see checks/c07.py). *)
 From Coq Require Import ZArith List Bool.
 Require Import Verif.Gen.Gen_executor Verif.Conc.Machine Verif.EX.EXModel Verif.EX.EXProofs.
 Import ListNotations.
 
-(* a task only ever starts on a worker thread, i.e. inside the RunnerScope keep_execute opens for this executor *)
-Theorem c07_runs_inside_runner_scope : forall c progs s id w, Reach c progs s -> In (id, w) (started s) -> w < nworkers c.
-Proof. exact ex_started_on_worker. Qed.
-Print Assumptions c07_runs_inside_runner_scope.
+(* usage rules under which the full statements are meant: at least one worker, one stop() call, every task id
+   submitted at one place only *)
+Definition submit_ids (progs : list (list op)) : list nat :=
+  flat_map (fun p => flat_map (fun o => match o with OSubmit id => [id] | _ => [] end) p) progs.
+Definition stop_ops (progs : list (list op)) : nat :=
+  length (flat_map (fun p => flat_map (fun o => match o with OStop => [tt] | _ => [] end) p) progs).
+Definition wf (c : config) (progs : list (list op)) : Prop :=
+  1 <= nworkers c /\ stop_ops progs <= 1 /\ NoDup (submit_ids progs ++ concat (bodies c)).
 
-(* threads keep their kind: external threads never execute worker code and vice versa *)
-Theorem c07_role_pc_consistent : forall c progs s, Reach c progs s ->
-  forall t th, nth_error (threads s) t = Some th -> role_pc_ok (trole th) (tpc th) = true.
-Proof. exact ex_role_pc. Qed.
-Print Assumptions c07_role_pc_consistent.
+(* ---- full-strength statements (not proved, see header) ----------------------------------------------------- *)
+Definition c07_run_once_statement : Prop := forall c progs s, wf c progs -> Reach c progs s ->
+  NoDup (map fst (started s)) /\ (forall id w, In (id, w) (started s) -> In id (accepted s) /\ w < nworkers c).
+Definition c07_stop_drains_statement : Prop := forall c progs s, wf c progs -> Reach c progs s ->
+  stop_returned s = true -> forall id, In id (acc_before s) \/ In id (acc_local s) -> In id (finished s).
+
+(* ---- proved ------------------------------------------------------------------------------------------------- *)
+Theorem c07_run_once_partial : forall c progs s id w, Reach c progs s -> In (id, w) (started s) -> w < nworkers c.
+Proof. exact ex_started_on_worker. Qed.
+Print Assumptions c07_run_once_partial.
+
+Theorem c07_stop_drains_partial : forall c progs s, Reach c progs s ->
+  (stop_returned s = true ->
+     (forall j, j < nworkers c -> worker_exited s j) /\
+     (forall t th, nth_error (threads s) t = Some th -> trole th = RBal -> tpc th = BExit)) /\
+  (stop_called s = false -> nostop (gq s) = true) /\
+  (forall t th, nth_error (threads s) t = Some th -> trole th = RBal -> tpc th <> BExit -> nostop (gq s) = true) /\
+  Forall lq_funs (lqs s) /\
+  (forall t th k it, nth_error (threads s) t = Some th -> tpc th = BTake k it -> fun_item it).
+Proof.
+  exact (fun c progs s Hr =>
+    conj (ex_stop_returns_after_exit c progs s Hr)
+    (conj (ex_nostop_before_stop c progs s Hr)
+    (conj (fun t th Hn Hb Hp => ex_nostop_while_balancing c progs s t th Hr Hn Hb Hp)
+          (ex_local_funs c progs s Hr)))).
+Qed.
+Print Assumptions c07_stop_drains_partial.
+
+(* stop() joins the workers in order: a stop() that is joining worker k has seen workers 0..k-1 exit *)
+Theorem c07_stop_joins_every_worker : forall c progs s, Reach c progs s ->
+  (forall t th k, nth_error (threads s) t = Some th -> tpc th = EStopJoin k -> forall j, j < k -> worker_exited s j) /\
+  (stop_returned s = true -> forall j, j < nworkers c -> worker_exited s j).
+Proof. exact ex_joined. Qed.
+Print Assumptions c07_stop_joins_every_worker.
+
+(* the marker loop starts only after the balance thread has exited *)
+Theorem c07_markers_after_balancer : forall c progs s, Reach c progs s -> markers_begun s ->
+  forall t th, nth_error (threads s) t = Some th -> trole th = RBal -> tpc th = BExit.
+Proof. exact ex_bal_exited. Qed.
+Print Assumptions c07_markers_after_balancer.
 
 (* markers are pushed / workers joined only by a thread that has called stop(); stop() returned implies called *)
 Theorem c07_stop_sequence : forall c progs s, Reach c progs s ->
@@ -24,7 +85,13 @@ Theorem c07_stop_sequence : forall c progs s, Reach c progs s ->
 Proof. exact ex_stop_called. Qed.
 Print Assumptions c07_stop_sequence.
 
-(* the regenerated decision expressions have the shape the argument relies on *)
+(* threads keep their kind: external threads never execute worker code and vice versa *)
+Theorem c07_role_pc_consistent : forall c progs s, Reach c progs s ->
+  forall t th, nth_error (threads s) t = Some th -> role_pc_ok (trole th) (tpc th) = true.
+Proof. exact ex_role_pc. Qed.
+Print Assumptions c07_role_pc_consistent.
+
+(* ---- the regenerated decision expressions have the shape the argument relies on ---------------------------- *)
 Theorem c07_marker_is_what_workers_exit_on :
   stop_marker_type = worker_exits_on /\ wakeup_marker_type <> worker_exits_on /\
   invoke_task_type = worker_runs_on /\ worker_runs_on <> worker_exits_on.
@@ -45,7 +112,8 @@ Theorem c07_worker_loop_tests :
 Proof. exact (conj gen_local_first (conj gen_pop_needed (conj gen_stop_early gen_balance_continues))). Qed.
 Print Assumptions c07_worker_loop_tests.
 
-(* a refused submission (BasicExecutor::invoke's result) makes execute() return an invalid future; the pool never refuses *)
+(* a refused submission (BasicExecutor::invoke's result) makes execute() return an invalid future; the pool's
+   enqueue_task never refuses *)
 Theorem c07_refused_submission_invalid_future :
   execute_failed base_invoke_result = true /\ execute_failed enqueue_result = false /\ execute_failed enqueue_local_result = false.
 Proof. exact gen_refusal. Qed.
@@ -54,3 +122,11 @@ Print Assumptions c07_refused_submission_invalid_future.
 Theorem c07_memory_order_obligations : orders_ok = true.
 Proof. exact ex_orders_ok. Qed.
 Print Assumptions c07_memory_order_obligations.
+
+(* ---- non-vacuity: a reachable state in which stop() has returned, a task spawned into a local queue after
+   stop() was called has run, and both full statements hold ------------------------------------------------ *)
+Example c07_demo_reachable : Reach demo_cfg demo_progs (run st (step demo_cfg) (init demo_cfg demo_progs) demo_sched).
+Proof. exact ex_demo_reach. Qed.
+Example c07_demo_drained : let s := run st (step demo_cfg) (init demo_cfg demo_progs) demo_sched in
+  stop_returned s = true /\ finished s = [0; 1] /\ map fst (started s) = [0; 1] /\ acc_local s = [1] /\ acc_before s = [0].
+Proof. exact ex_demo. Qed.
